@@ -296,6 +296,59 @@ def b3(chk):
                                   csv_pass=x['row']['passf']) for x in t['ent'][:8]]))
 
 
+def trace_spec_selftest(chk):
+    """the trace specification must be able to say no: every clause has to fire on a recorded batch in which exactly the
+    field it talks about was corrupted (a silent clause would make B3 vacuous -> machinery failure)"""
+    name, reqs = crafted()[0]
+    run = pu.run_batch('meshV2+island', {'path-request': reqs}, 'selftest:base')
+    if run.exc:
+        return                                            # reported by b3 as a violation
+    base = pu.trace_of(run)
+
+    def idx(pred):
+        return next(i for i, x in enumerate(base['ent']) if pred(x))
+    sv = idx(lambda x: x['o']['reason'] == '' and x['e']['hasZA'])
+    ag = idx(lambda x: len(x['e']['ids']) > 1)
+    bl = idx(lambda x: x['o']['reason'] == 'NO_SPECTRUM')
+    npth = idx(lambda x: x['o']['reason'] == 'NO_PATH')
+    cases = [
+        ('OneEntryPerRequest', lambda t: t['inputs'].append(dict(t['inputs'][0], id='ghost'))),
+        ('IdIsJoinedId', lambda t: t['ent'][ag]['e']['ids'].append('ghost')),
+        ('AggregatedOnlyIdentical', lambda t: next(i for i in t['inputs'] if i['id'] == t['ent'][ag]['e']['ids'][0]).update(key='x')),
+        ('BandwidthIsSum', lambda t: t['ent'][ag]['e']['metric'].update(bw=10000)),
+        ('ServedHasPathProperties', lambda t: t['ent'][sv]['e'].update(top=['no-path'])),
+        ('NoPathOnlyReason', lambda t: t['ent'][npth]['e'].update(npkeys=['no-path', 'path-properties'])),
+        ('BlockedCarriesReason', lambda t: t['ent'][bl]['e'].update(reason='NO_PATH')),
+        ('RouteHopByHop', lambda t: t['ent'][sv]['e']['objs'][3].update(uid='wrong')),
+        ('LabelsEqualNM', lambda t: t['ent'][sv]['e']['objs'][1]['nm'].__setitem__(0, [1, 1])),
+        ('NoLabelWhenBlocked', lambda t: t['ent'][bl]['e']['objs'].insert(1, dict(k='label', idx=1, uid='', nm=[[0, 4]], type='', mode=''))),
+        ('TransponderTypeAndMode', lambda t: t['ent'][sv]['e']['objs'][2].update(mode='mode 9')),
+        ('ObjectOrder', lambda t: t['ent'][sv]['e']['objs'][4].update(idx=99)),
+        ('MetricsEqualReceiver', lambda t: t['ent'][sv]['e']['metric'].update(snrmin=t['ent'][sv]['e']['metric']['snrmin'] + 1)),
+        ('ReverseIffBidir', lambda t: t['ent'][sv]['e'].update(hasZA=False)),
+        ('ReverseFromReverseReceiver', lambda t: t['ent'][sv]['e'].update(za=dict(t['ent'][sv]['e']['metric']))),
+        ('CsvNoPathOnlyReason', lambda t: t['ent'][npth]['row'].update(src='x')),
+        ('CsvStatesSame', lambda t: t['ent'][sv]['row']['rev'].update(snr01=1)),
+        ('CsvLibraryFigures', lambda t: t['ent'][sv]['row'].update(thr=t['ent'][sv]['row']['thr'] - 200)),
+        ('CsvPassFlag', lambda t: t['ent'][sv]['row'].update(passf='False')),
+        ('CsvBandwidthAndCost', lambda t: t['ent'][sv]['row'].update(cost=0)),
+        ('CsvOneRowPerEntry', lambda t: t['ent'][sv]['row'].update(idstr='zz')),
+    ]
+    traces = [base]
+    for clause, f in cases:
+        t = copy.deepcopy(base)
+        t['name'] = f'selftest:{clause}'
+        f(t)
+        traces.append(t)
+    v = pu.judge(traces, chk, 'c19-selftest')
+    if v['selftest:base']:
+        return                                            # the unchanged batch already violates: b3 reports it
+    silent = [c for c, _ in cases if c not in {x[1] for x in v[f'selftest:{c}']}]
+    if silent:
+        raise Machinery(f'Trace_Planning clauses that do not fire on a corrupted trace: {silent}')
+    chk.cov['trace_clauses_shown_to_fire'] = len(cases)
+
+
 def run(chk):
     # ---- B1
     r = tlc.run('MC_PlanReport', timeout=600, tag='c19-mc')
@@ -306,6 +359,8 @@ def run(chk):
     # ---- B2
     b2(chk, r.emitted)
     # ---- B3
+    if not chk.mutant:
+        trace_spec_selftest(chk)
     b3(chk)
     chk.cov['rounding_slack_micro_units'] = 1
     chk.cov['rule'] = ('B2: one case per enumerated outcome (non-trivial when a path is reported); '
